@@ -419,6 +419,9 @@ structure Occ where
   refs : List Name := []         -- unions: `refsOf`
   disc : Option Name := none     -- unions: discriminator property
   ord : List Char := []          -- inline: processing order key `Holder.prop` (holders and properties are BTreeMaps)
+  /-- a type-less inline schema that carries a `title`: `TypeResolver::try_type_ref_by_title` types it as the component
+  whose KEY is that title, if there is one (finding F-C13-8) -/
+  title : Option Name := none
   deriving Repr
 
 /-- identity token of the Rust type an occurrence is given -/
@@ -454,6 +457,9 @@ def token (named : List Occ) (o : Occ) : Tok :=
   match o.named with
   | some n => .named n
   | none =>
+    match o.title.bind (fun t => (named.find? fun c => c.named == some t).bind (·.named)) with
+    | some n => .named n
+    | none =>
     match o.kind with
     | .enum =>
       match namedByCanon named o.canon with
